@@ -338,6 +338,93 @@ def run(ctx):
     ctx.attempt(_r13)
     ctx.attempt(_r14)
     ctx.attempt(_r15)
+    ctx.attempt(_r16)
+    ctx.attempt(_r17)
+
+
+def _r17(ctx):
+    """R-C13-17 (the two operands may be ONE object: Broadcaster(x).broadcast(x), hist.load_collective.scale(hist)): in the
+    constructor of the index-level cache every read of `<parameter>.index` - for the level tables and for the re-coding - comes
+    before the first `<parameter>.index = ...` store.  A store to the object's index followed by a read of the operand's index
+    re-codes the already re-coded keys when both names denote the same object: the result rows get wrong keys."""
+    prog = ctx.prog
+    ctx.rule("R-C13-17", floor=1, what="the cache constructor reads both operands' indices before it overwrites either")
+    f = prog.func(MOD + ":_IndexLevelCache.__init__")
+    params = [p_ for p_ in f.params if p_ != "self"]
+    stores = [st for st in walk_function(f.node) if isinstance(st, ast.Assign) and any(
+        isinstance(t, ast.Attribute) and t.attr == "index" and isinstance(t.value, ast.Name) and t.value.id in params for t in st.targets)]
+    if len(stores) < 2:
+        raise AnalysisError("_IndexLevelCache.__init__: the index stores to the two operands were not found")
+    first = min(st.lineno for st in stores)
+    bad = None
+    for st in walk_function(f.node):
+        if getattr(st, "lineno", 0) < first or not isinstance(st, ast.stmt):
+            continue
+        exprs = [st.value] if isinstance(st, (ast.Assign, ast.Expr, ast.AugAssign, ast.Return)) and st.value is not None else \
+            [getattr(st, "test", None) or getattr(st, "iter", None)]
+        for e in exprs:
+            if e is None:
+                continue
+            for x in ast.walk(e):
+                if isinstance(x, ast.Attribute) and x.attr == "index" and isinstance(x.value, ast.Name) and x.value.id in params and \
+                        isinstance(x.ctx, ast.Load):
+                    stored_before = [s_ for s_ in stores if s_.lineno < st.lineno or (s_ is not st and s_.lineno == st.lineno)]
+                    others = [s_ for s_ in stored_before if not any(isinstance(t, ast.Attribute) and t.value.id == x.value.id
+                                                                     for t in s_.targets if isinstance(t, ast.Attribute))]
+                    if others and bad is None:
+                        bad = (st, x, others[0])
+    if bad is None:
+        ctx.holds(f, stores[0], "all reads of %s precede the first index store (line %d)" % (" / ".join(p_ + ".index" for p_ in params), first))
+    else:
+        st, x, o = bad
+        ctx.violated(f, st, "_IndexLevelCache.__init__: `%s` reads %s.index after `%s` has already replaced the index of the other "
+                     "operand - when both are the same object (x broadcast against itself) the re-coded index is re-coded again and "
+                     "the rows of the result carry wrong keys" % (norm_text(st)[:70], x.value.id, norm_text(o)[:50]),
+                     text="index read after the other operand's index store")
+
+
+def _r16(ctx):
+    """R-C13-16 ('every calculation built on it equals the element-by-element result'): broadcast returns TWO objects with an
+    identical index, in an order of its own (the alignment of partially shared levels sorts).  A caller that throws the second
+    one away (`p, _ = ....broadcast(q)`) and then pairs `p` BY POSITION (`.iloc`) with some other object - typically the object it
+    broadcast, in its original row order - gives element i the parameters of element j whenever the two orders differ."""
+    prog = ctx.prog
+    ctx.rule("R-C13-16", floor=6, what="a broadcast result is paired by position only with the object returned together with it")
+    for k, fi in sorted(prog.functions.items()):
+        if not fi.module.name.startswith("pylife.") or fi.module.name == MOD:
+            continue
+        for st in walk_function(fi.node):
+            if not (isinstance(st, ast.Assign) and isinstance(st.targets[0], ast.Tuple) and len(st.targets[0].elts) == 2 and
+                    isinstance(st.value, ast.Call) and isinstance(st.value.func, ast.Attribute) and st.value.func.attr == "broadcast"
+                    and all(isinstance(t, ast.Name) for t in st.targets[0].elts)):
+                continue
+            p, o = (t.id for t in st.targets[0].elts)
+            later = [x for x in walk_function(fi.node) if getattr(x, "lineno", 0) > st.lineno]
+            o_read = o != "_" and any(isinstance(x, ast.Name) and x.id == o and isinstance(x.ctx, ast.Load) for y in later for x in ast.walk(y))
+            if o_read:
+                ctx.holds(fi, st, "%s: both results of the broadcast are used (%s, %s)" % (fi.qualname, p, o))
+                continue
+            bad = None
+            for y in later:
+                if not isinstance(y, ast.Assign):
+                    continue
+                t = y.targets[0]
+                positional_target = isinstance(t, ast.Subscript) and isinstance(t.value, ast.Attribute) and t.value.attr in ("iloc", "iat") \
+                    and isinstance(t.value.value, ast.Name) and t.value.value.id != p
+                reads_p_by_position = any(isinstance(x, ast.Attribute) and x.attr in ("iloc", "iat", "values") and
+                                          any(isinstance(z, ast.Name) and z.id == p for z in ast.walk(x.value)) for x in ast.walk(y.value))
+                if positional_target and reads_p_by_position:
+                    bad = y
+                    break
+            if bad is None:
+                ctx.holds(fi, st, "%s: the second result is not used, and %s is not paired by position with another object" % (fi.qualname, p))
+            else:
+                ctx.violated(fi, bad, "%s: `%s` discards the object aligned with %r, and %r then fills %r from %r by position: "
+                             "the two are in the same row order only as long as the broadcast keeps the order of the object it was "
+                             "given - it does not for partially shared index levels that are not sorted, and element i receives the "
+                             "parameters of element j" % (fi.qualname, norm_text(st)[:70], p, norm_text(bad)[:60],
+                                                          bad.targets[0].value.value.id, p),
+                             text="positional pairing of a broadcast result with another object")
 
 
 def _one_level_branches(fn_node):
@@ -1216,6 +1303,26 @@ def variants():
                                 "name=index.name)")
         return True
     out.append(witness("several-level branch first, then index.name for the one-level case", PATH, multi_first_dot_name, "R-C13-15"))
+
+    MS = "src/pylife/strength/meanstress.py"
+
+    def goodman_positional(tree):
+        f = find_func(tree, "HaighDiagram.fkm_goodman")
+        i = next(k for k, st in enumerate(f.body) if isinstance(st, ast.Assign) and norm_text(st.targets[0]) == "R_index")
+        f.body.insert(i + 1, parse_stmt("haigh.iloc[R_index.get_indexer_for([0])] = haigh_frame.iloc[R_index.get_indexer_for([0]), 0] * 0"))
+        return True
+    out.append(witness("fkm_goodman pairs the broadcast index frame with the dummy series by position", MS, goodman_positional, "R-C13-16"))
+
+    def recode_in_place(tree):
+        f = find_func(tree, "_IndexLevelCache.__init__")
+        idx = [i for i, st in enumerate(f.body) if isinstance(st, ast.Assign) and isinstance(st.targets[0], ast.Attribute) and
+               st.targets[0].attr == "index" and isinstance(st.targets[0].value, ast.Name) and st.targets[0].value.id in ("obj", "operand")]
+        if len(idx) != 2:
+            return False
+        f.body[idx[0]] = parse_stmt("obj.index = self._make_new_index(obj.index)")
+        f.body[idx[1]] = parse_stmt("operand.index = self._make_new_index(operand.index)")
+        return True
+    out.append(witness("operands re-coded one after the other (aliasing operands re-coded twice)", PATH, recode_in_place, "R-C13-17"))
 
     def identity_fast_path(tree):
         f = find_func(tree, F2F)
